@@ -818,39 +818,42 @@ Proof.
   apply IH; auto. rewrite (b_map _ _ _ B src Ht1). now apply bnd_set_name.
 Qed.
 
-Lemma load_modules_sim T fuel : forall ms vm s W,
+Lemma load_modules_sim T fuel : forall ms vm s W ld,
   bnd T vm s -> forallb wf_munit ms = true ->
-  match load_modules_s C fuel T s W ms with
-  | (s', W', o, XOk) => exists vm', load_modules C fuel vm ms = (vm', o, SOk) /\ bnd T vm' s'
-  | (s', W', o, XErr) => exists vm', load_modules C fuel vm ms = (vm', o, SErr) /\ bnd (W' ++ T) vm' s'
+  match load_modules_s C fuel T s W ld ms with
+  | (s', W', l', o, XOk) => exists vm', load_modules C fuel vm ld ms = (vm', l', o, SOk) /\ bnd T vm' s'
+  | (s', W', l', o, XErr) => exists vm', load_modules C fuel vm ld ms = (vm', l', o, SErr) /\ bnd (W' ++ T) vm' s'
   | _ => True
   end.
 Proof.
-  induction ms as [|m r IH]; intros vm s W B Hw.
+  induction ms as [|m r IH]; intros vm s W ld B Hw.
   { cbn. exists vm. auto. }
   cbn [forallb] in Hw. apply andb_true_iff in Hw as [NL Hr]. unfold wf_munit in NL.
   cbn [load_modules_s load_modules].
+  destruct (mu_fails m).
+  { exists vm. split; [reflexivity|]. apply (bnd_weaken T); [|exact B]. intros n Hn. unfold untainted in *.
+    rewrite memb_app in Hn. apply orb_false_iff in Hn. tauto. }
   (* the exports are registered in a state whose two views agree, whether the module ran or not *)
-  assert (REG : forall vm1 s1 W1 o1, bnd T vm1 s1 ->
-    match (if existsb (fun e => memb (snd e) T) (mu_exports m) then (s1, W1, o1, XTaint)
+  assert (REG : forall vm1 s1 W1 o1 ld1, bnd T vm1 s1 ->
+    match (if existsb (fun e => memb (snd e) T) (mu_exports m) then (s1, W1, ld, o1, XTaint)
            else let s2 := fold_left (fun x e => mkS ((fst e, sget (s_store x) (snd e)) :: s_store x) (s_heap x) (s_next x)) (mu_exports m) s1 in
                 let W2 := map fst (mu_exports m) ++ W1 in
-                let '(s3, W3, out2, st2) := load_modules_s C fuel T s2 W2 r in (s3, W3, o1 ++ out2, st2)) with
-    | (s', W', o, XOk) => exists vm',
-        (let '(vm4, out2, s2) := load_modules C fuel (fold_left (fun v e => set_name v (fst e) (glookup (gmap v) (snd e))) (mu_exports m) vm1) r in (vm4, o1 ++ out2, s2)) = (vm', o, SOk) /\ bnd T vm' s'
-    | (s', W', o, XErr) => exists vm',
-        (let '(vm4, out2, s2) := load_modules C fuel (fold_left (fun v e => set_name v (fst e) (glookup (gmap v) (snd e))) (mu_exports m) vm1) r in (vm4, o1 ++ out2, s2)) = (vm', o, SErr) /\ bnd (W' ++ T) vm' s'
+                let '(s3, W3, l3, out2, st2) := load_modules_s C fuel T s2 W2 ld1 r in (s3, W3, l3, o1 ++ out2, st2)) with
+    | (s', W', l', o, XOk) => exists vm',
+        (let '(vm4, l4, out2, s2) := load_modules C fuel (fold_left (fun v e => set_name v (fst e) (glookup (gmap v) (snd e))) (mu_exports m) vm1) ld1 r in (vm4, l4, o1 ++ out2, s2)) = (vm', l', o, SOk) /\ bnd T vm' s'
+    | (s', W', l', o, XErr) => exists vm',
+        (let '(vm4, l4, out2, s2) := load_modules C fuel (fold_left (fun v e => set_name v (fst e) (glookup (gmap v) (snd e))) (mu_exports m) vm1) ld1 r in (vm4, l4, o1 ++ out2, s2)) = (vm', l', o, SErr) /\ bnd (W' ++ T) vm' s'
     | _ => True
     end).
-  { intros vm1 s1 W1 o1 B1.
+  { intros vm1 s1 W1 o1 ld1 B1.
     destruct (existsb (fun e => memb (snd e) T) (mu_exports m)) eqn:Et; [exact I|].
     pose proof (exports_sim T (mu_exports m) vm1 s1 B1 Et) as B3.
-    specialize (IH _ _ (map fst (mu_exports m) ++ W1) B3 Hr). cbv zeta.
-    destruct (load_modules_s C fuel T _ (map fst (mu_exports m) ++ W1) r) as [[[s3 W3] o3] x3].
+    specialize (IH _ _ (map fst (mu_exports m) ++ W1) ld1 B3 Hr). cbv zeta.
+    destruct (load_modules_s C fuel T _ (map fst (mu_exports m) ++ W1) ld1 r) as [[[[s3 W3] l3] o3] x3].
     destruct x3; auto.
     + destruct IH as (vm4 & E4 & B4). rewrite E4. eauto.
     + destruct IH as (vm4 & E4 & B4). rewrite E4. eauto. }
-  destruct (mu_run m).
+  destruct (negb (memb (mu_id m) ld)).
   - pose proof (run_unit_sim C WF T fuel vm s W (mu_layout m) (mu_body m) B NL) as H.
     destruct (exec_s C fuel 1 T (mu_layout m) VNull s W (mu_body m)) as [[[s1 W1] o1] x1].
     destruct x1; auto.
@@ -858,11 +861,11 @@ Proof.
       (* the explicit sync before the export registration is redundant: the unit's Return already synced *)
       apply REG. destruct MODULE_SYNCS_BEFORE_EXPORTS; [now apply bnd_sync_loaded|exact B1].
     + destruct H as (vm1 & Er & B1). rewrite Er. eauto.
-  - rewrite andb_false_r. apply (REG vm s W [] B).
+  - rewrite andb_false_r. apply (REG vm s W [] ld B).
 Qed.
 
 Definition drel (d : dstate) (x : xstate) : Prop :=
-  bnd (x_taint x) (d_vm d) (x_s x) /\ d_known d = x_known x /\ d_mut d = x_mut x.
+  bnd (x_taint x) (d_vm d) (x_s x) /\ d_known d = x_known x /\ (d_mut d = x_mut x /\ d_loaded d = x_loaded x).
 
 Lemma step_sim fuel d x st : drel d x -> wf_step st = true ->
   match xstep C fuel x st with
@@ -871,13 +874,14 @@ Lemma step_sim fuel d x st : drel d x -> wf_step st = true ->
   | _ => True
   end.
 Proof.
-  intros (B & Ek & Em) Hw. destruct st as [imports compiles L body newmut imported|n nargs arg|n v].
+  intros (B & Ek & Em & El) Hw. destruct st as [imports compiles L body newmut imported|n nargs arg|n v].
   - (* a REPL input *)
     cbn [wf_step] in Hw. apply andb_true_iff in Hw as [NL Hi].
     cbn [xstep mstep]. unfold HOST_CALL_CHECKS_ARITY_FIRST, REPL_CLEARS_FRAMES_FIRST, REPL_RECORDS_IMPORTS_AFTER_COMPILE, RUN_FAST_UNWINDS_ON_ERROR.
-    pose proof (load_modules_sim (x_taint x) fuel imports (with_frames (d_vm d) []) (x_s x) []
+    unfold REPL_KEEPS_MODULE_MEMO_ON_FAILED_LOAD. rewrite El.
+    pose proof (load_modules_sim (x_taint x) fuel imports (with_frames (d_vm d) []) (x_s x) [] (x_loaded x)
                   (bnd_with_frames_nil _ _ _ B) Hi) as H.
-    destruct (load_modules_s C fuel (x_taint x) (x_s x) [] imports) as [[[s1 W1] o1] x1].
+    destruct (load_modules_s C fuel (x_taint x) (x_s x) [] (x_loaded x) imports) as [[[[s1 W1] l1] o1] x1].
     destruct x1; auto.
     + destruct H as (vm1 & E1 & B1). rewrite E1.
       destruct compiles; cbn [negb].
@@ -885,21 +889,21 @@ Proof.
         destruct (exec_s C fuel 1 (x_taint x) L VNull s1 W1 body) as [[[s2 W2] o2] x2].
         destruct x2; auto.
         -- destruct H2 as (vm2 & E2 & B2 & _ & _). rewrite E2. eexists. split; [reflexivity|].
-           split; [|split]; cbn [d_vm d_known d_mut x_s x_taint x_known x_mut]; try congruence.
+           split; [|split; [|split]]; cbn [d_vm d_known d_mut d_loaded x_s x_taint x_known x_mut x_loaded]; try congruence.
            destruct REPL_SYNCS_AFTER_SUCCESSFUL_RUN; [now apply bnd_sync_loaded|exact B2].
         -- destruct H2 as (vm2 & E2 & B2). rewrite E2. eexists. split; [reflexivity|].
-           split; [|split]; cbn [d_vm d_known d_mut x_s x_taint x_known x_mut]; try congruence.
-      * eexists. split; [reflexivity|]. split; [|split]; cbn [d_vm d_known d_mut x_s x_taint x_known x_mut]; auto.
+           split; [|split; [|split]]; cbn [d_vm d_known d_mut d_loaded x_s x_taint x_known x_mut x_loaded]; try congruence.
+      * eexists. split; [reflexivity|]. split; [|split; [|split]]; cbn [d_vm d_known d_mut d_loaded x_s x_taint x_known x_mut x_loaded]; auto.
     + destruct H as (vm1 & E1 & B1). rewrite E1. eexists. split; [reflexivity|].
-      split; [|split]; cbn [d_vm d_known d_mut x_s x_taint x_known x_mut]; auto.
+      split; [|split; [|split]]; cbn [d_vm d_known d_mut d_loaded x_s x_taint x_known x_mut x_loaded]; auto.
   - (* a host call *)
     cbn [xstep mstep]. unfold HOST_CALL_CHECKS_ARITY_FIRST, REPL_CLEARS_FRAMES_FIRST, REPL_RECORDS_IMPORTS_AFTER_COMPILE, RUN_FAST_UNWINDS_ON_ERROR. destruct (memb n (x_taint x)) eqn:Tn; [exact I|].
     rewrite (b_map _ _ _ B n Tn).
-    destruct (sget (s_store (x_s x)) n) as [|z|p]; try (exists d; split; [reflexivity|split; auto]).
+    destruct (sget (s_store (x_s x)) n) as [|z|p]; try (exists d; split; [reflexivity|split; [|split; [|split]]; auto]).
     rewrite (b_heap _ _ _ B).
-    destruct (lookup p (s_heap (x_s x))) as [[fid|tag ar]|]; try (exists d; split; [reflexivity|split; auto]).
-    + destruct (lookup fid C) as [fd|] eqn:EF; try (exists d; split; [reflexivity|split; auto]).
-      destruct (negb (fd_arity fd =? nargs)); [eexists; split; [reflexivity|split; [exact B|split; [exact Ek|exact Em]]]|].
+    destruct (lookup p (s_heap (x_s x))) as [[fid|tag ar]|]; try (exists d; split; [reflexivity|split; [|split; [|split]]; auto]).
+    + destruct (lookup fid C) as [fd|] eqn:EF; try (exists d; split; [reflexivity|split; [|split; [|split]]; auto]).
+      destruct (negb (fd_arity fd =? nargs)); [eexists; split; [reflexivity|split; [exact B|split; [exact Ek|split; [exact Em|exact El]]]]|].
       set (Lc := fd_layout fd). assert (NL : nodupb Lc = true) by exact (WF fid fd EF).
       destruct (sim_prepare (x_taint x) [] (d_vm d) (x_s x) Lc (bnd_sim _ [] _ _ B) (b_map _ _ _ B) NL) as (S1 & C1 & _ & F1).
       set (vm1 := with_frames (prepare (d_vm d) Lc) (mkFrame Lc true :: frames (prepare (d_vm d) Lc))).
@@ -913,18 +917,18 @@ Proof.
       destruct (exec_s C fuel 1 (x_taint x) Lc arg (x_s x) [] (fd_body fd)) as [[[s1 W1] o1'] x1].
       unfold corr in H. destruct x1; auto.
       * destruct H as (Emm & Eo & S2 & _ & F2 & _). subst m1 o1. eexists. split; [reflexivity|].
-        split; [|split]; cbn [d_vm d_known d_mut x_s x_taint x_known x_mut]; auto.
+        split; [|split; [|split]]; cbn [d_vm d_known d_mut d_loaded x_s x_taint x_known x_mut x_loaded]; auto.
         assert (Dr : do_return st1 = with_frames (sync_loaded st1) []) by (unfold do_return, RETURN_SYNCS_WHEN_LEAVING; rewrite F2; reflexivity).
         rewrite Dr. destruct (sim_sync_loaded _ _ _ _ S2) as [S3 AC].
         apply sim_bnd with (W := W1); [now apply sim_with_frames|exact AC|reflexivity].
       * destruct H as (Emm & Eo & S2 & (ext & Fe & Ne) & _). subst m1 o1. eexists. split; [reflexivity|].
-        split; [|split]; cbn [d_vm d_known d_mut x_s x_taint x_known x_mut]; auto.
+        split; [|split; [|split]]; cbn [d_vm d_known d_mut d_loaded x_s x_taint x_known x_mut x_loaded]; auto.
         apply sim_bnd_fail; [now apply sim_with_frames|].
         cbn [frames with_frames]. rewrite Fe. now apply unwind_ext.
-    + destruct (negb (ar =? nargs)); exists d; split; try reflexivity; split; auto.
+    + destruct (negb (ar =? nargs)); (exists d; split; [reflexivity|]; split; [exact B|split; [exact Ek|split; [exact Em|exact El]]]).
   - (* the host sets a global by name *)
     cbn [xstep mstep]. eexists. split; [reflexivity|].
-    split; [|split]; cbn [d_vm d_known d_mut x_s x_taint x_known x_mut]; auto.
+    split; [|split; [|split]]; cbn [d_vm d_known d_mut d_loaded x_s x_taint x_known x_mut x_loaded]; auto.
     now apply bnd_set_name.
 Qed.
 
@@ -953,7 +957,7 @@ Qed.
 
 Lemma init_drel : drel dinit xinit.
 Proof.
-  split; [|split; reflexivity]. constructor; try reflexivity.
+  split; [|split; [reflexivity|split; reflexivity]]. constructor; try reflexivity.
   - intros L vec H. discriminate.
   - intro H. exfalso. now apply H.
   - unfold len_ok. cbn. lia.
@@ -987,11 +991,11 @@ Qed.
    frame stack -- on the machine and in the specification *)
 Theorem rejected_input_changes_nothing : forall fuel d L body nm im,
   mstep C fuel d (SInput [] false L body nm im) =
-    (mkD (with_frames (d_vm d) []) (d_known d) (d_mut d), [], SErr).
+    (mkD (with_frames (d_vm d) []) (d_known d) (d_mut d) (d_loaded d), [], SErr).
 Proof. reflexivity. Qed.
 
 Theorem rejected_input_changes_nothing_spec : forall fuel x L body nm im,
-  xstep C fuel x (SInput [] false L body nm im) = (mkX (x_s x) (x_taint x) (x_known x) (x_mut x), [], XErr).
+  xstep C fuel x (SInput [] false L body nm im) = (mkX (x_s x) (x_taint x) (x_known x) (x_mut x) (x_loaded x), [], XErr).
 Proof. reflexivity. Qed.
 
 (* the specification's run only changes the names it reports as written *)
@@ -1139,7 +1143,7 @@ Definition ex_session : list step :=
     SInput [] true [Some 4; Some 1] [IOut 77; ICall (CGlobal 4) 1 None; IOut 99] [] [];   (* boom fails after partial effects *)
     SInput [] false [Some 1] [IPrint 1 0] [] [];         (* rejected at compile time *)
     SHost 2 1 VNull;                                    (* bump again -> 10 *)
-    SInput [mkMU true [Some 8; Some 1] [IDef 8 10] [(7, 8); (8, 8)]] true [Some 7; Some 1]
+    SInput [mkMU 1 false [Some 8; Some 1] [IDef 8 10] [(7, 8); (8, 8)]] true [Some 7; Some 1]
            [ICall (CGlobal 7) 1 None; IPrint 1 0] [] [7] ].  (* needs m as q; q.bump2(_); print counter *)
 
 Lemma ex_session_facts :
